@@ -86,10 +86,9 @@ def check_enqueue(p, w, r):
                     bad = (pa, f'sort must use only key= (found args={len(call.args)}, keywords={sorted(kws)})')
                     continue
                 lam = kws['key']
-                good_key = isinstance(lam, ast.Lambda) and len(lam.args.args) == 1 and isinstance(lam.body, ast.Attribute) \
-                    and isinstance(lam.body.value, ast.Name) and lam.body.value.id == lam.args.args[0].arg and lam.body.attr == attr
+                good_key, why_key = key_ok(p, s, fi, lam, attr)
                 if not good_key:
-                    bad = (pa, f'sort key `{ast.unparse(lam)}` does not read exactly the attribute `{attr}` assigned from the priority parameter')
+                    bad = (pa, f'sort key `{ast.unparse(lam)}` {why_key}')
                     continue
                 order = [evs.index(prio_sets[0]), evs.index(ap), evs.index(so)]
                 if order != sorted(order):
@@ -105,6 +104,53 @@ def check_enqueue(p, w, r):
             r.fail('C05.R1', key, bad[1], src(fi.module), fi.node.lineno, bad[0].describe())
         else:
             r.ok('C05.R1', key, 'append + stable ascending sort on the own priority' if has_prio else 'append only (FCFS)', src(fi.module), fi.node.lineno)
+
+
+def key_ok(p, s, fi, lam, attr):
+    """key = lambda e: e.<attr>   or   lambda e: (e.<attr>, e.<t1>, ...) where every tie-break t_i is non-decreasing in arrival order"""
+    if not (isinstance(lam, ast.Lambda) and len(lam.args.args) == 1):
+        return False, 'is not a one-argument lambda'
+    v = lam.args.args[0].arg
+
+    def is_attr(n, name=None):
+        return isinstance(n, ast.Attribute) and isinstance(n.value, ast.Name) and n.value.id == v and (name is None or n.attr == name)
+    body = lam.body
+    if is_attr(body, attr):
+        return True, ''
+    if isinstance(body, ast.Tuple) and body.elts and is_attr(body.elts[0], attr):
+        for el in body.elts[1:]:
+            if not is_attr(el):
+                return False, f'has the tie-break `{ast.unparse(el)}`, which is not an attribute of the request'
+            ok, why = arrival_monotone(p, s, fi, el.attr)
+            if not ok:
+                return False, f'breaks ties with `{el.attr}`, {why}: a later request can overtake an earlier one of the same priority'
+        return True, ''
+    return False, f'does not order by the attribute `{attr}` assigned from the priority parameter (first)'
+
+
+def arrival_monotone(p, s, fi, name):
+    """the request attribute `name` is assigned, in the enqueue function, a value that never decreases from one arrival to the next"""
+    assigns = [n for n in walk_no_nested(fi.node) if isinstance(n, ast.Assign) and any(isinstance(t, ast.Attribute) and t.attr == name for t in n.targets)]
+    if len(assigns) != 1:
+        return False, f'which is assigned {len(assigns)} time(s) in {fi.name}'
+    val = assigns[0].value
+    if isinstance(val, ast.Attribute) and val.attr == 'now':
+        return True, ''
+    c = self_attr(val)
+    if c is not None:
+        writes = p.self_attr_sites(s.ci.key).get(c, [])
+        good = bool(writes)
+        for wfi, wv, line in writes:
+            node = next((n for n in walk_no_nested(wfi.node) if getattr(n, 'lineno', 0) == line and isinstance(n, (ast.Assign, ast.AugAssign))), None)
+            if isinstance(node, ast.AugAssign):
+                if not (isinstance(node.op, ast.Add) and isinstance(node.value, ast.Constant) and isinstance(node.value.value, (int, float)) and node.value.value > 0):
+                    good = False
+            elif not (wfi.name == '__init__' and isinstance(wv, ast.Constant)):
+                good = False
+        if good:
+            return True, ''
+        return False, f'a counter (self.{c}) that is not only ever increased'
+    return False, f'which is `{ast.unparse(val)}` (not the clock and not an ever-increasing counter)'
 
 
 ALLOWED = {('reserve_put', QP, 'append'), ('reserve_put', QP, 'sort'), ('reserve_get', QG, 'append'), ('reserve_get', QG, 'sort'),
@@ -134,7 +180,10 @@ def check_queue_mutations(p, w, r):
                 if Q is None:
                     continue
                 key = f'{fi.key}::{Q}.{op}'
-                if (fi.name, Q, op) in ALLOWED:
+                head_pop = op == 'pop' and isinstance(n, ast.Call) and len(n.args) == 1 and isinstance(n.args[0], ast.Constant) and n.args[0].value == 0
+                if head_pop:
+                    r.ok('C05.R2', key, 'removal of the head: the relative order of the remaining requests is unchanged', src(fi.module), n.lineno)
+                elif (fi.name, Q, op) in ALLOWED:
                     r.ok('C05.R2', key, 'order-preserving queue operation in its designated function', src(fi.module), n.lineno)
                 elif fi.key not in reach:
                     r.ok('C05.R2', key, 'in a method unreachable from the store API (excluded)', src(fi.module), n.lineno)
